@@ -39,6 +39,7 @@ def correspond(streams, hooks=None):
     flat, impl_out, spans, findings = run_impl(streams, hooks)
     model_out, model_s = run_model(flat)
     mismatches = []
+    skipped_nonfinite = 0
     for si, (a, b) in enumerate(spans):
         for k in range(a + 1, b):
             m = model_out[k]
@@ -46,11 +47,14 @@ def correspond(streams, hooks=None):
                 mismatches.append({"stream": si, "op_index": k - a - 1, "diffs": [m["outcome"]],
                                    "ops": streams[si][: k - a], "model": m, "impl": impl_out[k]})
                 break
+            if "nonfinite" in json.dumps(impl_out[k]):
+                skipped_nonfinite += 1
+                break   # inf/nan appeared (e.g. division by zero): the exact model does not follow further
             d = diff_line(m, impl_out[k])
             if d:
                 mismatches.append({"stream": si, "op_index": k - a - 1, "diffs": d,
                                    "ops": streams[si][: k - a], "model": m, "impl": impl_out[k]})
                 break
     return {"evaluations": len(flat) - len(streams), "mismatches": mismatches,
-            "outcomes": [o["outcome"] for o in impl_out],
+            "outcomes": [o["outcome"] for o in impl_out], "skipped_nonfinite": skipped_nonfinite,
             "findings": findings, "model_s": model_s, "streams": len(streams)}
